@@ -349,7 +349,7 @@ def r4(rng):
     if r < 0.6:
         return "%02d%02d" % (rng.randrange(0, 32), rng.randrange(0, 60))
     if r < 0.8:
-        return rng.choice(["2004", "1999", "0605", "1230", "0000", "2004-05-06", "2004-05", "2004-5-6", "20045", "204", "", "abcd", "12a4", "\u0661\u0662\u0663\u0664"])
+        return rng.choice(["2004", "1999", "0605", "1230", "0000", "2004-05-06", "2004-05", "2004-5-6", "20045", "204", "", "abcd", "12a4", "1999\x002000", "19,99"])
     return "".join(rng.choice("0123456789-a") for _ in range(rng.randrange(0, 11)))
 
 
@@ -598,9 +598,791 @@ def corr_small(ctx, n):
                     _dis(ctx, "c13.walk", "model walker on the real v2.%d frame area: %s" % (v, wm[:80]), {"len": ln, "v": v, "pad": pad})
 
 
-def dev_r(ctx, n=50):
+
+# ------------------------------------------------------------------------------------------------ (D) direct oracle
+from fam import walkers as W
+
+
+def walk_area(body, ver):
+    """independent walker of a frame area (used for CHAP/CTOC sub-frames): [(id, flags, payload)]"""
+    out, p = [], 0
+    while p + 10 <= len(body) and body[p] != 0:
+        fid = body[p:p + 4]
+        raw = body[p + 4:p + 8]
+        if ver == 4:
+            W.need(all(b < 0x80 for b in raw), "sub-frame size not syncsafe")
+            n = W.syncsafe(raw)
+        else:
+            n = int.from_bytes(raw, "big")
+        W.need(all((65 <= c <= 90) or (48 <= c <= 57) for c in fid), "bad sub-frame id %r" % fid)
+        W.need(n > 0 and p + 10 + n <= len(body), "sub-frame %r overruns its parent" % fid)
+        out.append((fid.decode("ascii"), int.from_bytes(body[p + 8:p + 10], "big"), body[p + 10:p + 10 + n]))
+        p += 10 + n
+    W.need(not body[p:].strip(b"\0"), "junk after the last sub-frame")
+    return out
+
+
+def dec_frame(fid, ver, payload):
+    """independent decoding (ID3v2.3/2.4 layouts) -> canonical-like tuple with the raw encoding byte"""
+    try:
+        if fid in ("CHAP", "CTOC"):
+            eid, rest = W._split_term(0, payload)
+            if fid == "CHAP":
+                t0, t1, o0, o1 = struct.unpack(">IIII", rest[:16])
+                return ("H", eid.decode("latin-1"), t0, t1, o0, o1, tuple(dec_frame(i, ver, p) for i, fl, p in walk_area(rest[16:], ver)))
+            flags, count = rest[0], rest[1]
+            rest = rest[2:]
+            ch = []
+            for _ in range(count):
+                c, rest = W._split_term(0, rest)
+                ch.append(c.decode("latin-1"))
+            return ("O", eid.decode("latin-1"), flags, tuple(ch), tuple(dec_frame(i, ver, p) for i, fl, p in walk_area(rest, ver)))
+        if fid in ("IPLS", "TIPL", "TMCL"):
+            enc = payload[0]
+            vals = W._text_list(enc, payload[1:]) if len(payload) > 1 else []
+            W.need(len(vals) % 2 == 0, "odd people list in %s" % fid)
+            return ("P", fid, enc, tuple((vals[i], vals[i + 1]) for i in range(0, len(vals), 2)))
+        if fid == "TXXX":
+            enc = payload[0]
+            d, rest = W._split_term(enc, payload[1:])
+            return ("X", enc, W._dec_text(enc, d), tuple(W._text_list(enc, rest)))
+        if fid == "COMM":
+            enc = payload[0]
+            d, rest = W._split_term(enc, payload[4:])
+            return ("C", enc, payload[1:4].decode("latin-1"), W._dec_text(enc, d), tuple(W._text_list(enc, rest)))
+        if fid == "APIC":
+            enc = payload[0]
+            mime, rest = W._split_term(0, payload[1:])
+            d, data = W._split_term(enc, rest[1:])
+            return ("A", enc, mime.decode("latin-1"), rest[0], W._dec_text(enc, d), bytes(data))
+        if fid[0] == "T":
+            enc = payload[0]
+            return ("T", fid, enc, tuple(W._text_list(enc, payload[1:])))
+    except (IndexError, UnicodeDecodeError, KeyError, struct.error):
+        raise W.Bad("frame %s does not decode under the v2.%d layout" % (fid, ver))
+    return ("R", fid, None, bytes(payload))
+
+
+def encs_of(fr):
+    """all text-encoding bytes of a decoded frame, nested ones included"""
+    k = fr[0]
+    if k in ("T", "P"):
+        return [fr[2]]
+    if k in ("X", "C", "A"):
+        return [fr[1]]
+    if k == "H":
+        return [e for x in fr[6] for e in encs_of(x)]
+    if k == "O":
+        return [e for x in fr[4] for e in encs_of(x)]
+    return []
+
+
+def ref_latin1(s, n):
+    b = bytes(ord(c) if ord(c) < 256 else 63 for c in s)[:n]
+    return b + b"\0" * (n - len(b))
+
+
+def stamp_text(fields, tsep="T"):
+    y, mo, d, h, mi, s = fields
+    parts = [(y, "%04d", ""), (mo, "%02d", "-"), (d, "%02d", "-"), (h, "%02d", tsep), (mi, "%02d", ":"), (s, "%02d", ":")]
+    out = ""
+    for v, fmt, sp in parts:
+        if v is None:
+            break
+        out += sp + fmt % v
+    return out
+
+
+def gen_fields(rng):
+    prec = rng.choice([1, 2, 3, 3, 4, 5, 6, 6])
+    f = [rng.choice([1, 7, 987, 1999, 2004, 9999]) if rng.random() < 0.5 else rng.randrange(1, 10000),
+         rng.randrange(1, 13), rng.randrange(1, 32), rng.choice([0, 0, 1, 12, 23] + [rng.randrange(24)]),
+         rng.choice([0, 0, 1, 30, 59] + [rng.randrange(60)]), rng.randrange(60)]
+    return tuple(f[:prec] + [None] * (6 - prec))
+
+
+def gen_clean(rng, depth=0):
+    """a clean v2.4-style tag description (valid for saving and reloading) plus what the property says about it"""
+    meta = {"texts": {}, "people": None}
+    d = []
+    enc = lambda: rng.randrange(4)
+    p = lambda x: rng.random() < x
+
+    def vals(e, lo=1):
+        return tuple(rtext(rng, e, 1, 9).strip() or "v" for _ in range(rng.choice([1, 1, 2, 3])))
+    if p(0.85):
+        f = gen_fields(rng)
+        more = (stamp_text(gen_fields(rng)),) if p(0.2) else ()
+        d.append(("S", "TDRC", enc(), (stamp_text(f, rng.choice(["T", " "])),) + more))
+        meta["tdrc"] = f
+    if p(0.5):
+        f = gen_fields(rng)
+        d.append(("S", "TDOR", enc(), (stamp_text(f),)))
+        meta["tdor"] = f
+    pe = []
+    for i in ("TIPL", "TMCL"):
+        if p(0.5):
+            pl = tuple((rtext(rng, 1).strip() or "r", rtext(rng, 1).strip() or "n") for _ in range(rng.randrange(1, 4)))
+            d.append(("P", i, rng.choice([1, 3]), pl))
+            pe.append((i, pl))
+    if pe:
+        meta["people"] = pe
+    for i in ("TIT2", "TPE1", "TALB", "TCOM", "TSOP"):
+        if p(0.6):
+            e = enc()
+            v = vals(e)
+            if i == "TIT2" and p(0.5):
+                v = (("Long title " + rtext(rng, e, 25, 40)).strip(),) + v[1:]
+            d.append(("T", i, e, v))
+            meta["texts"][i] = v
+    if p(0.6):
+        e = enc()
+        g = tuple(rng.choice(["Rock", "Blues", "Jazz", "My Own Genre", "A Cappella", "Psybient"]) for _ in range(rng.choice([1, 1, 2])))
+        d.append(("T", "TCON", e, g))
+        meta["texts"]["TCON"] = g
+    if p(0.6):
+        tr = rng.choice(["5", "5/7", "12/12", "255", "256/300", "0"])
+        d.append(("T", "TRCK", enc(), (tr,)))
+        meta["trck"] = tr
+    meta["txxx"] = []
+    for k in range(rng.choice([0, 1, 2])):
+        e = enc()
+        x = ("X", e, "d%d" % k + rtext(rng, e, 0, 3).strip(), vals(e))
+        d.append(x)
+        meta["txxx"].append(x)
+    meta["comm"] = []
+    for k in range(rng.choice([0, 1, 1, 2])):
+        e = enc()
+        c = ("C", e, rng.choice(["eng", "deu"]), rng.choice(["", "ID3v1 Comment", "c%d" % k]), vals(e) if p(0.7) else (("A long comment " + rtext(rng, e, 20, 30)).strip(),))
+        if any(x[2] == c[2] and x[3] == c[3] for x in meta["comm"]):
+            continue
+        d.append(c)
+        meta["comm"].append(c)
+    if depth == 0:
+        # always one frame of >= 128 bytes: plain and syncsafe size fields differ from there on
+        e = enc()
+        d.append(("A", e, rng.choice(["image/png", "image/jpeg", "PNG", "JPG"]), 3, rtext(rng, e, 0, 3).strip(), bytes(rng.randrange(1, 256) for _ in range(rng.randrange(130, 420)))))
+        for k in range(rng.choice([0, 1, 1, 2])):
+            sub, smeta = gen_clean(rng, 1)
+            d.append(("H", "ch%d" % k, k * 1000, k * 1000 + 999, 0xFFFFFFFF, 0xFFFFFFFF, sub))
+            meta.setdefault("chap", []).append(("ch%d" % k, smeta))
+        if p(0.3):
+            sub, smeta = gen_clean(rng, 1)
+            d.append(("O", "toc", 3, ("ch0", "ch1"), sub))
+            meta.setdefault("ctoc", []).append(("toc", smeta))
+        for i in ("RVA2", "PRIV", "UFID", "PCNT", "WOAR"):
+            if p(0.1):
+                d.append(("R", i))
+    rng.shuffle(d)
+    return tuple(d), meta
+
+
+def ref_saved(frames, v2, sep):
+    """reference of what a reader gets back from a save of the in-memory frames (canonical tuples)"""
+    out = []
+    for fr in frames:
+        k = fr[0]
+        e23 = lambda e: e if (v2 == 4 or e in (0, 1)) else 1
+        jn = lambda v: tuple(v) if (v2 == 4 or sep is None) else (sep.join(v),)
+        if k == "T":
+            if "\0".join(fr[3]) == "":
+                continue
+            out.append(("T", fr[1], e23(fr[2]), jn(fr[3])))
+        elif k == "S":
+            if ",".join(stamp_text(d, " ") for d in fr[3]) == "":
+                continue
+            out.append(("S", fr[1], e23(fr[2]), fr[3]))
+        elif k == "X":
+            if "\0".join(fr[3]) == "":
+                continue
+            out.append(("X", e23(fr[1]), fr[2], jn(fr[3])))
+        elif k == "C":
+            if "\0".join(fr[4]) == "":
+                continue
+            out.append(("C", e23(fr[1]), fr[2], fr[3], jn(fr[4])))
+        elif k == "P":
+            out.append(("P", fr[1], e23(fr[2]), fr[3]))
+        elif k == "A":
+            out.append(("A", e23(fr[1])) + fr[2:])
+        elif k == "H":
+            out.append(fr[:6] + (ref_saved(fr[6], v2, sep),))
+        elif k == "O":
+            out.append(fr[:4] + (ref_saved(fr[4], v2, sep),))
+        else:
+            out.append(fr)
+    return tuple(out)
+
+
+OLD_V1 = b"TAG" + b"old title".ljust(30, b"\0") + b"old artist".ljust(30, b"\0") + b"old album".ljust(30, b"\0") + b"1990" + b"old comment".ljust(28, b"\0") + b"\0\x09\x11"
+AUDIO = b"\xff\xfb\x90\x64" + bytes(range(1, 200)) * 2
+EXISTING = {"empty": b"", "audio": AUDIO, "audio+v1": AUDIO + OLD_V1}
+
+
+def _viol(ctx, what, cls, data):
+    d = dict(data)
+    d["class"] = cls
+    d["runner"] = "c13.oracle"
+    ctx.violation("oracle", what, d)
+
+
+def check_level(ctx, viol, dec, meta, v2, sep, where=""):
+    """the property's information claims on one level of independently decoded frames"""
+    by = {}
+    for fr in dec:
+        key = fr[1] if fr[0] in ("T", "P", "R") else (fr[0], fr[2] if fr[0] == "X" else (fr[3], fr[2]) if fr[0] == "C" else fr[1])
+        by.setdefault(key, []).append(fr)
+
+    def text_of(fid):
+        return by[fid][0][3] if fid in by and by[fid][0][0] == "T" else None
+    if v2 == 3:
+        for fid in ("TDRC", "TDOR", "TIPL", "TMCL"):
+            if fid in by:
+                viol("v2.3 tag contains the v2.4-only frame %s" % fid, "v24-frame-in-v23")
+        if "tdrc" in meta:
+            y, mo, d, h, mi, s = meta["tdrc"]
+            if y and text_of("TYER") != ("%04d" % y,):
+                viol("v2.3 tag does not carry the recording year in TYER" + where, "tyer")
+            if mo and d and text_of("TDAT") != ("%02d%02d" % (d, mo),):
+                viol("v2.3 tag does not carry the recording day and month as DDMM in TDAT" + where, "tdat")
+            if h and mi and text_of("TIME") != ("%02d%02d" % (h, mi),):
+                viol("v2.3 tag does not carry the recording hour and minute as HHMM in TIME" + where, "time")
+        if "tdor" in meta and meta["tdor"][0] and text_of("TORY") != ("%04d" % meta["tdor"][0],):
+            viol("v2.3 tag does not carry the original release year in TORY" + where, "tory")
+        if meta.get("people"):
+            want = tuple(x for _, pl in meta["people"] for x in pl)
+            got = by.get("IPLS", [None])[0]
+            if got is None or got[3] != want:
+                viol("v2.3 IPLS is not the TIPL list followed by the TMCL list" + where, "ipls")
+    else:
+        if "tdrc" in meta:
+            got = text_of("TDRC")
+            if got is None or got[0] != stamp_text(meta["tdrc"]):
+                viol("v2.4 tag does not carry the recording time in TDRC" + where, "tdrc")
+        if "tdor" in meta:
+            got = text_of("TDOR")
+            if got is None or got[0] != stamp_text(meta["tdor"]):
+                viol("v2.4 tag does not carry the original release time in TDOR" + where, "tdor")
+        for fid, pl in meta.get("people") or []:
+            got = by.get(fid, [None])[0]
+            if got is None or got[3] != pl:
+                viol("v2.4 tag does not carry the %s people list" % fid + where, "people24")
+    jn = lambda v: tuple(v) if (v2 == 4 or sep is None) else (sep.join(v),)
+    for fid, v in meta["texts"].items():
+        if v2 == 3 and fid == "TSOP":
+            continue            # v2.4-only frame, dropped by update_to_v23
+        if text_of(fid) != jn(v):
+            viol("multi-valued text is not carried (joined by the separator, or kept separate when none is given)" + where, "multivalue")
+    for x in meta["txxx"]:
+        got = by.get(("X", x[2]), [None])[0]
+        if got is None or got[3] != jn(x[3]):
+            viol("multi-valued TXXX text is not carried" + where, "multivalue-txxx")
+    for c in meta["comm"]:
+        got = by.get(("C", (c[3], c[2])), [None])[0]
+        if got is None or got[4] != jn(c[4]):
+            viol("multi-valued COMM text is not carried" + where, "multivalue-comm")
+    for kind, key in (("H", "chap"), ("O", "ctoc")):
+        for eid, smeta in meta.get(key, []):
+            got = [fr for fr in dec if fr[0] == kind and fr[1] == eid]
+            if not got:
+                viol("chapter frame lost" + where, "chapter-lost")
+                continue
+            check_level(ctx, viol, got[0][6] if kind == "H" else got[0][4], smeta, v2, sep, " (chapter sub-frames)")
+
+
+def check_v1_block(ctx, viol, block, meta, mem, v2):
+    I = M()[0]
+    if len(block) != 128 or block[:3] != b"TAG":
+        viol("no 128-byte ID3v1 block at the end of the file", "v1-missing")
+        return
+    G = genres_table()
+    t = meta["texts"]
+    for fid, a, name in (("TIT2", 3, "title"), ("TPE1", 33, "artist"), ("TALB", 63, "album")):
+        want = ref_latin1(t[fid][0], 30) if fid in t else b"\0" * 30
+        if v2 == 3 and fid in t:
+            want = ref_latin1(mem[fid], 30)
+        if block[a:a + 30] != want:
+            viol("ID3v1 %s is not the Latin-1 ('?' replacement), 30-byte truncated, NUL padded image of the v2 frame" % name, "v1-" + name)
+    y = (meta.get("tdrc") or (None,))[0]
+    if block[93:97] != (("%04d" % y).encode() if y else b"\0\0\0\0"):
+        viol("ID3v1 year does not reflect the v2 recording year", "v1-year")
+    firsts = [ref_latin1(mem["C", c[3], c[2]], 28) + b"\0" for c in meta["comm"]]
+    if (firsts and block[97:126] not in firsts) or (not firsts and block[97:126] != b"\0" * 29):
+        viol("ID3v1 block does not reflect the v2 comment", "v1-comment-not-written")
+    tr = 0
+    if "trck" in meta:
+        n = int(meta["trck"].split("/")[0])
+        tr = n if n < 256 else 0
+    if block[126] != tr:
+        viol("ID3v1 track byte does not reflect TRCK", "v1-track")
+    ge = 255
+    if "TCON" in t and t["TCON"][0] in G:
+        ge = G.index(t["TCON"][0])
+    if block[127] != ge:
+        viol("ID3v1 genre byte does not reflect TCON", "v1-genre")
+
+
+def oracle_case(ctx, case_seed, v2, sep, v1, existing):
+    """save the clean v2.4-style tag generated from case_seed as v2.<v2>; judge the RAW BYTES;
+    returns the number of violations added"""
+    I = M()[0]
+    before = len(ctx.violations)
+    desc, meta = gen_clean(random.Random(case_seed))
+    data = {"case_seed": case_seed, "desc": desc_json(desc), "v2": v2, "sep": sep, "v1": v1, "existing": existing}
+    viol = lambda what, cls: _viol(ctx, what, cls, data)
+    t = build_tag(desc)
+    if v2 == 3:
+        t.update_to_v23()
+    else:
+        t.update_to_v24()
+    mem_c = canon(t)
+    mem_first = {}
+    for fr in mem_c:
+        if fr[0] == "T" and fr[3]:
+            mem_first[fr[1]] = (fr[3][0] if (v2 == 4 or sep is None or True) else None)
+        if fr[0] == "C" and fr[4]:
+            mem_first["C", fr[3], fr[2]] = fr[4][0]
+    f = io.BytesIO(EXISTING[existing])
+    try:
+        t.save(f, v1=v1, v2_version=v2, v23_sep=sep)
+    except Exception as e:
+        viol("saving a valid tag as v2.%d failed: %s" % (v2, type(e).__name__), "save-failed")
+        return 1
+    raw = f.getvalue()
+    ctx.oracle_cases += 1
+    ctx.count("oracle:save-v2.%d" % v2)
+    ctx.case(("save", repr(desc), v2, sep, v1, existing))
+    try:
+        w = W.id3v2_walk(raw)
+    except W.Bad as e:
+        viol("saved v2.%d tag is not walkable with %s frame sizes: %s" % (v2, "plain 32-bit" if v2 == 3 else "syncsafe", re.sub(r"\d+", "N", str(e))[:80]), "sizes")
+        return len(ctx.violations) - before
+    if w["version"] != v2 or raw[4] != 0:
+        viol("saved tag declares version 2.%d.%d, asked for 2.%d" % (w["version"], raw[4], v2), "version-byte")
+    if w["flags"] != 0:
+        viol("saved tag has header flags %#x" % w["flags"], "flags")
+    if any(fl for _, fl, _ in w["frames"]):
+        viol("saved frame has non-zero flags", "frame-flags")
+    try:
+        dec = tuple(dec_frame(i, v2, p) for i, fl, p in w["frames"])
+    except W.Bad as e:
+        viol("saved v2.%d frame does not decode: %s" % (v2, re.sub(r"\d+", "N", str(e))[:80]), "frame-decode")
+        return len(ctx.violations) - before
+    if v2 == 3 and any(e not in (0, 1) for fr in dec for e in encs_of(fr)):
+        viol("v2.3 tag contains a text encoding other than Latin-1 / UTF-16", "encoding")
+    check_level(ctx, viol, dec, meta, v2, sep)
+    # reload gives the frames that were written
+    try:
+        r = I.ID3(io.BytesIO(raw), v2_version=v2, load_v1=False)
+        got = norm(canon(r))
+        want = norm(ref_saved(mem_c, v2, sep))
+        if got != want:
+            a, b = set(got), set(want)
+            viol("reloading the saved v2.%d tag does not give the frames that were written" % v2, "reload")
+            ctx.notes.setdefault("reload_diff", repr((sorted(a - b, key=repr)[:2], sorted(b - a, key=repr)[:2]))[:600])
+    except Exception as e:
+        viol("reloading the saved v2.%d tag failed: %s" % (v2, type(e).__name__), "reload-failed")
+    # ID3v1
+    size = w["size"]
+    tail = raw[size:]
+    had = existing == "audio+v1"
+    if v1 == 2 or (v1 == 1 and had):
+        check_v1_block(ctx, viol, tail[-128:], meta, mem_first, v2)
+    elif len(tail) >= 128 and tail[-128:-125] == b"TAG":
+        viol("an ID3v1 block is present although v1=%d %s" % (v1, "with" if had else "without an existing block"), "v1-unwanted")
+    return len(ctx.violations) - before
+
+
+def _meta_json(m):
+    return m
+
+
+# ---- hand-built v2.2 / v2.3 tags and the sample files: load, save as v2.4 (and v2.3)
+def syncsafe4(n):
+    return bytes([(n >> 21) & 0x7F, (n >> 14) & 0x7F, (n >> 7) & 0x7F, n & 0x7F])
+
+
+def build_v22(frames):
+    body = b"".join(i.encode() + len(p).to_bytes(3, "big") + p for i, p in frames)
+    return b"ID3\x02\x00\x00" + syncsafe4(len(body)) + body
+
+
+def build_v23(frames):
+    body = b"".join(i.encode() + len(p).to_bytes(4, "big") + b"\0\0" + p for i, p in frames)
+    return b"ID3\x03\x00\x00" + syncsafe4(len(body)) + body
+
+
+def etext(enc, s):
+    return {0: lambda: s.encode("latin-1") + b"\0", 1: lambda: b"\xff\xfe" + s.encode("utf-16-le") + b"\0\0"}[enc]()
+
+
+def hand_case(rng):
+    """one old-style tag description: the same information as v2.2 bytes and as v2.3 bytes"""
+    e = rng.choice([0, 1])
+    al = LATIN.replace("/", "").replace(";", "") if e == 0 else "abc \u4e2d\u20ac"
+    tx = lambda lo=1, hi=9: ("".join(rng.choice(al) for _ in range(rng.randrange(lo, hi + 1))).strip() or "x")
+    info = {"enc": e, "title": tx(), "artist": tx(), "album": tx(20, 45), "y": rng.randrange(1, 10000), "d": rng.randrange(1, 32), "mo": rng.randrange(1, 13),
+            "h": rng.randrange(0, 24), "mi": rng.randrange(0, 60), "oy": rng.randrange(1, 10000),
+            "people": [(tx(), tx()) for _ in range(rng.randrange(1, 4))], "genre": rng.choice([0, 1, 17, 8]), "track": "%d/%d" % (rng.randrange(1, 20), 20),
+            "comment": tx(3, 12), "pic": bytes(rng.randrange(1, 256) for _ in range(rng.randrange(140, 300))), "has_time": rng.random() < 0.8, "has_date": rng.random() < 0.85}
+    return info
+
+
+def hand_frames(info, ver):
+    e = info["enc"]
+    T = lambda s: bytes([e]) + etext(e, s)
+    ids = {2: dict(t="TT2", a="TP1", l="TAL", y="TYE", d="TDA", m="TIM", o="TOR", p="IPL", g="TCO", k="TRK", c="COM", pic="PIC"),
+           3: dict(t="TIT2", a="TPE1", l="TALB", y="TYER", d="TDAT", m="TIME", o="TORY", p="IPLS", g="TCON", k="TRCK", c="COMM", pic="APIC")}[ver]
+    fr = [(ids["t"], T(info["title"])), (ids["a"], T(info["artist"])), (ids["l"], T(info["album"])), (ids["y"], T("%04d" % info["y"]))]
+    if info["has_date"]:
+        fr.append((ids["d"], T("%02d%02d" % (info["d"], info["mo"]))))
+    if info["has_time"]:
+        fr.append((ids["m"], T("%02d%02d" % (info["h"], info["mi"]))))
+    fr.append((ids["o"], T("%04d" % info["oy"])))
+    fr.append((ids["p"], bytes([e]) + b"".join(etext(e, a) + etext(e, b) for a, b in info["people"])))
+    fr.append((ids["g"], T("(%d)" % info["genre"])))
+    fr.append((ids["k"], T(info["track"])))
+    fr.append((ids["c"], bytes([e]) + b"eng" + etext(e, "") + etext(e, info["comment"])))
+    if ver == 2:
+        fr.append((ids["pic"], bytes([e]) + b"JPG" + b"\x03" + etext(e, "") + info["pic"]))
+    else:
+        fr.append((ids["pic"], bytes([e]) + b"image/jpeg\0" + b"\x03" + etext(e, "") + info["pic"]))
+    return fr
+
+
+def oracle_hand(ctx, case_seed, src, dst):
+    """load a hand-built v2.<src> tag, save as v2.<dst>, decode the raw result independently"""
+    I = M()[0]
+    before = len(ctx.violations)
+    info = hand_case(random.Random(case_seed))
+    data = {"hand_seed": case_seed, "hand": desc_json(_info_json(info)), "src": src, "dst": dst}
+    viol = lambda what, cls: _viol(ctx, what, cls, data)
+    raw0 = (build_v22 if src == 2 else build_v23)(hand_frames(info, src)) + AUDIO
+    try:
+        t = I.ID3(io.BytesIO(raw0), v2_version=dst, load_v1=False)
+        f = io.BytesIO(raw0)
+        t.save(f, v1=2, v2_version=dst, v23_sep="/")
+    except Exception as e:
+        viol("loading a v2.%d tag and saving it as v2.%d failed: %s" % (src, dst, type(e).__name__), "hand-failed")
+        return 1
+    raw = f.getvalue()
+    ctx.oracle_cases += 1
+    ctx.count("oracle:v2.%d->v2.%d" % (src, dst))
+    ctx.case(("hand", case_seed, src, dst))
+    try:
+        w = W.id3v2_walk(raw)
+        dec = {}
+        for i, fl, p in w["frames"]:
+            dec.setdefault(i, []).append(dec_frame(i, dst, p))
+    except W.Bad as e:
+        viol("v2.%d tag saved from a v2.%d source is not walkable with %s sizes" % (dst, src, "plain 32-bit" if dst == 3 else "syncsafe"), "sizes")
+        return len(ctx.violations) - before
+    if w["version"] != dst or w["flags"] != 0:
+        viol("saved tag declares version 2.%d flags %#x, asked for 2.%d" % (w["version"], w["flags"], dst), "version-byte")
+    tx = lambda i: dec[i][0][3] if i in dec else None
+    for i, k in (("TIT2", "title"), ("TPE1", "artist"), ("TALB", "album")):
+        if tx(i) != (info[k],):
+            viol("text of %s is not preserved when converting v2.%d to v2.%d" % (i, src, dst), "hand-text")
+    if tx("TRCK") != (info["track"],):
+        viol("TRCK is not preserved when converting v2.%d to v2.%d" % (src, dst), "hand-text")
+    G = genres_table()
+    if tx("TCON") != (G[info["genre"]],):
+        viol("genre is not preserved when converting v2.%d to v2.%d" % (src, dst), "hand-genre")
+    if "COMM" not in dec or dec["COMM"][0][4] != (info["comment"],):
+        viol("comment is not preserved when converting v2.%d to v2.%d" % (src, dst), "hand-comment")
+    if "APIC" not in dec or dec["APIC"][0][2] != "image/jpeg" or dec["APIC"][0][5] != info["pic"]:
+        viol("picture is not preserved when converting v2.%d to v2.%d" % (src, dst), "hand-picture")
+    if dst == 4:
+        want = "%04d" % info["y"]
+        if info["has_date"]:
+            want += "-%02d-%02d" % (info["mo"], info["d"])
+            if info["has_time"]:
+                want += "T%02d:%02d:00" % (info["h"], info["mi"])
+        if tx("TDRC") != (want,):
+            viol("TYER/TDAT/TIME of a v2.%d tag are not carried into TDRC" % src, "hand-tdrc")
+        if tx("TDOR") != ("%04d" % info["oy"],):
+            viol("TORY of a v2.%d tag is not carried into TDOR" % src, "hand-tdor")
+        if "TIPL" not in dec or dec["TIPL"][0][3] != tuple(info["people"]):
+            viol("IPLS of a v2.%d tag is not carried into TIPL" % src, "hand-tipl")
+        for i in ("TYER", "TDAT", "TIME", "TORY", "IPLS"):
+            if i in dec:
+                viol("v2.4 tag contains the v2.3-only frame %s" % i, "v23-frame-in-v24")
+    else:
+        if tx("TYER") != ("%04d" % info["y"],) or (info["has_date"] and tx("TDAT") != ("%02d%02d" % (info["d"], info["mo"]),)) or \
+                (info["has_time"] and tx("TIME") != ("%02d%02d" % (info["h"], info["mi"]),)):
+            viol("TYER/TDAT/TIME of a v2.%d tag are not preserved in the v2.3 tag" % src, "hand-date23")
+        if tx("TORY") != ("%04d" % info["oy"],):
+            viol("TORY of a v2.%d tag is not preserved in the v2.3 tag" % src, "hand-tory23")
+        if "IPLS" not in dec or dec["IPLS"][0][3] != tuple(info["people"]):
+            viol("IPLS of a v2.%d tag is not preserved in the v2.3 tag" % src, "hand-ipls23")
+        if any(e not in (0, 1) for l in dec.values() for fr in l for e in encs_of(fr)):
+            viol("v2.3 tag contains a text encoding other than Latin-1 / UTF-16", "encoding")
+    # the ID3v1 block written alongside
+    blk = raw[-128:]
+    if blk[:3] != b"TAG" or blk[3:33] != ref_latin1(info["title"], 30) or blk[33:63] != ref_latin1(info["artist"], 30) or blk[63:93] != ref_latin1(info["album"], 30):
+        viol("ID3v1 title/artist/album do not reflect the converted tag", "v1-hand-text")
+    elif blk[93:97] != ("%04d" % info["y"]).encode() or blk[126] != int(info["track"].split("/")[0]) or blk[127] != info["genre"]:
+        viol("ID3v1 year/track/genre do not reflect the converted tag", "v1-hand-num")
+    elif blk[97:126] != ref_latin1(info["comment"], 28) + b"\0":
+        viol("ID3v1 block does not reflect the v2 comment", "v1-comment-not-written")
+    return len(ctx.violations) - before
+
+
+def _info_json(info):
+    d = dict(info)
+    d["people"] = [list(x) for x in info["people"]]
+    return d
+
+
+def _info_unjson(j):
+    d = dict(j)
+    d["pic"] = bytes.fromhex(j["pic"]["hex"]) if isinstance(j["pic"], dict) else j["pic"]
+    d["people"] = [tuple(x) for x in j["people"]]
+    return d
+
+
+V22_IDS = {"TT2": "TIT2", "TP1": "TPE1", "TAL": "TALB", "TRK": "TRCK", "TEN": "TENC", "TT1": "TIT1", "TT3": "TIT3", "TCM": "TCOM", "TP2": "TPE2"}
+SAMPLES = ["id3v22-test.mp3", "too-short.mp3", "silence-44-s.mp3", "vbri.mp3", "bad-xing.mp3", "97-unknown-23-update.mp3"]
+
+
+def oracle_sample(ctx, name):
+    """a sample file with a v2.2 / v2.3 tag: save as v2.4; text frames and the year keep their values, sizes are syncsafe"""
+    I = M()[0]
+    from common import REPO
+    path = os.path.join(REPO, "tests", "data", name)
+    if not os.path.exists(path):
+        return 0
+    before = len(ctx.violations)
+    raw0 = open(path, "rb").read()
+    viol = lambda what, cls: _viol(ctx, what, cls, {"sample": name})
+    try:
+        w0 = W.id3v2_walk(raw0)
+    except W.Bad:
+        return 0
+    src = w0["version"]
+    old = {}
+    for i, fl, p in w0["frames"]:
+        if fl:
+            continue
+        i4 = V22_IDS.get(i, i) if src == 2 else i
+        if i4[0] == "T" and i4 not in ("TXXX", "TYER", "TYE", "TCON", "TCO", "TDAT", "TIME", "TORY") and len(i4) == 4 and len(p) > 1:
+            try:
+                vals = [v for v in W._text_list(p[0], p[1:]) if v]
+            except Exception:
+                continue
+            if vals:
+                old.setdefault(i4, []).extend(vals)
+        if i in ("TYE", "TYER") and len(p) > 1:
+            try:
+                old["year"] = W._text_list(p[0], p[1:])[0]
+            except Exception:
+                pass
+    try:
+        t = I.ID3(io.BytesIO(raw0), load_v1=False)
+        f = io.BytesIO(raw0)
+        t.save(f, v1=0, v2_version=4)
+        w = W.id3v2_walk(f.getvalue())
+    except W.Bad as e:
+        viol("sample %s saved as v2.4 is not walkable with syncsafe sizes" % name, "sizes")
+        return 1
+    except Exception as e:
+        viol("sample %s could not be saved as v2.4: %s" % (name, type(e).__name__), "sample-failed")
+        return 1
+    ctx.oracle_cases += 1
+    ctx.count("oracle:sample-v2.%d->v2.4" % src)
+    ctx.case(("sample", name))
+    new = {}
+    for i, fl, p in w["frames"]:
+        if i[0] == "T" and i != "TXXX":
+            new.setdefault(i, []).extend(W._text_list(p[0], p[1:]))
+    if w["version"] != 4:
+        viol("sample saved as v2.4 declares version %d" % w["version"], "version-byte")
+    for i, vals in old.items():
+        if i == "year":
+            if re.fullmatch(r"[0-9]{4}", vals) and (new.get("TDRC") or [""])[0][:4] != vals:
+                viol("the year of a v2.%d sample is not carried into TDRC" % src, "sample-year")
+        elif [v for v in new.get(i, [])] != vals and sorted(set(new.get(i, []))) != sorted(set(vals)):
+            viol("text frame of a v2.%d sample is not preserved in the v2.4 tag" % src, "sample-text")
+    return len(ctx.violations) - before
+
+
+def direct_oracle(ctx, n_tags, n_hand):
+    rng = ctx.rng
+    combos = [(v2, sep, v1, ex) for v2 in (3, 4) for sep in SEPS for v1 in (0, 1, 2) for ex in ("empty", "audio", "audio+v1")]
+    for k in range(n_tags):
+        cs = rng.getrandbits(48)
+        # every version x separator once per tag, ID3v1 option / existing content rotated; plus two random combinations
+        todo = [(v2, sep, (k + j) % 3, ("empty", "audio", "audio+v1")[(k + 2 * j) % 3]) for j, (v2, sep) in enumerate((a, b) for a in (3, 4) for b in SEPS)
+                if v2 == 3 or sep == "/"]
+        todo += [rng.choice(combos) for _ in range(2)]
+        for v2, sep, v1, ex in todo:
+            if oracle_case(ctx, cs, v2, sep, v1, ex) and len(ctx.violations) > 40:
+                return
+    for k in range(n_hand):
+        cs = rng.getrandbits(48)
+        for src in (2, 3):
+            for dst in (4, 3):
+                oracle_hand(ctx, cs, src, dst)
+    for name in SAMPLES:
+        oracle_sample(ctx, name)
+    # regression case of the fixed finding: the comment of a plain tag must reach the ID3v1 block
+    I = M()[0]
+    t = I.ID3(); t.add(I.TIT2(encoding=3, text=["Title"])); t.add(I.COMM(encoding=3, lang="eng", desc="", text=["hello comment"]))
+    f = io.BytesIO(); t.save(f, v1=2)
+    ctx.oracle_cases += 1
+    if f.getvalue()[-128:][97:110] != b"hello comment":
+        _viol(ctx, "ID3v1 block does not reflect the v2 comment", "v1-comment-not-written", {"fixed_case": "TIT2+COMM(desc='')"})
+
+
+# ------------------------------------------------------------------------------------------------ (V) vm_compute shard
+def coq_text(s):
+    return "[" + ";".join(str(ord(c)) for c in s) + "]"
+
+
+def coq_list(f, l):
+    return "[" + ";".join(f(x) for x in l) + "]"
+
+
+def coq_opt(o):
+    return "None" if o is None else "(Some (%d))" % o
+
+
+def coq_frame(fr):
+    k = fr[0]
+    if k == "T":
+        return "(FText %s %d %s)" % (coq_text(fr[1]), fr[2], coq_list(coq_text, fr[3]))
+    if k == "S":
+        return "(FStamp %s %d %s)" % (coq_text(fr[1]), fr[2], coq_list(lambda d: "(mkStamp %s)" % " ".join(coq_opt(x) for x in d), fr[3]))
+    if k == "X":
+        return "(FTxxx %d %s %s)" % (fr[1], coq_text(fr[2]), coq_list(coq_text, fr[3]))
+    if k == "C":
+        return "(FComm %d %s %s %s)" % (fr[1], coq_text(fr[2]), coq_text(fr[3]), coq_list(coq_text, fr[4]))
+    if k == "P":
+        return "(FPeople %s %d %s)" % (coq_text(fr[1]), fr[2], coq_list(lambda ab: "(%s,%s)" % (coq_text(ab[0]), coq_text(ab[1])), fr[3]))
+    if k == "A":
+        return "(FApic %d %s %d %s %s)" % (fr[1], coq_text(fr[2]), fr[3], coq_text(fr[4]), coq_list(str, fr[5]))
+    if k == "H":
+        return "(FChap %s %d %d %d %d %s)" % (coq_text(fr[1]), fr[2], fr[3], fr[4], fr[5], coq_list(coq_frame, fr[6]))
+    if k == "O":
+        return "(FCtoc %s %d %s %s)" % (coq_text(fr[1]), fr[2], coq_list(coq_text, fr[3]), coq_list(coq_frame, fr[4]))
+    return "(FOther %s %s %s)" % (coq_text(fr[1]), coq_text(fr[2]), coq_list(str, fr[3]))
+
+
+def ser_text(s):
+    return [len(s)] + [ord(c) for c in s]
+
+
+def ser_opt(o):
+    return [0] if o is None else [1, o]
+
+
+def ser_frame(fr):
+    k = fr[0]
+    sl = lambda f, l: [len(l)] + [y for x in l for y in f(x)]
+    if k == "T":
+        return [1] + ser_text(fr[1]) + [fr[2]] + sl(ser_text, fr[3])
+    if k == "S":
+        return [2] + ser_text(fr[1]) + [fr[2]] + sl(lambda d: [y for x in d for y in ser_opt(x)], fr[3])
+    if k == "X":
+        return [3, fr[1]] + ser_text(fr[2]) + sl(ser_text, fr[3])
+    if k == "C":
+        return [4, fr[1]] + ser_text(fr[2]) + ser_text(fr[3]) + sl(ser_text, fr[4])
+    if k == "P":
+        return [5] + ser_text(fr[1]) + [fr[2]] + sl(lambda ab: ser_text(ab[0]) + ser_text(ab[1]), fr[3])
+    if k == "A":
+        return [6, fr[1]] + ser_text(fr[2]) + [fr[3]] + ser_text(fr[4]) + [len(fr[5])] + list(fr[5])
+    if k == "H":
+        return [7] + ser_text(fr[1]) + [fr[2], fr[3], fr[4], fr[5], len(fr[6])] + [y for x in fr[6] for y in ser_frame(x)]
+    if k == "O":
+        return [8] + ser_text(fr[1]) + [fr[2]] + sl(ser_text, fr[3]) + [len(fr[4])] + [y for x in fr[4] for y in ser_frame(x)]
+    return [9] + ser_text(fr[1]) + ser_text(fr[2]) + [len(fr[3])] + list(fr[3])
+
+
+def ser_tag(frames):
+    return [len(frames)] + [y for x in frames for y in ser_frame(x)]
+
+
+def vm_crosscheck(ctx):
+    """the extracted binary must agree with the kernel's own evaluator on the same cases"""
+    rng = random.Random(ctx.rng.getrandbits(48))
+    G = genres_table()[:20]
+    Gp = p_list(p_text, G)
+    Gc = coq_list(coq_text, G)
+    cases, expect = [], []
+    for k in range(24):
+        desc = gen_desc(rng)
+        c0 = canon(build_tag(desc))
+        if len(p_tag(c0)) > 2500:
+            continue
+        tc = coq_list(coq_frame, c0)
+        for op, fn in (("c13_u23", "conv_update_to_v23"), ("c13_u24", "conv_update_to_v24")):
+            r = model_tag(ctx, op, Gp, p_tag(c0))
+            if isinstance(r, str):
+                continue
+            cases.append("conv_ser_tag (%s %s %s)" % (fn, Gc, tc))
+            expect.append(ser_tag(r))
+        r = model_tag(ctx, "c13_saved", "3", p_text(" / "), p_tag(c0))
+        if not isinstance(r, str):
+            cases.append("conv_ser_tag (conv_saved23 (Some %s) %s)" % (coq_text(" / "), tc))
+            expect.append(ser_tag(r))
+        r = ctx.model.call("c13_mk1", Gp, p_tag(c0))
+        cases.append("match conv_make_id3v1 %s %s with Ok b => 1 :: b | Raise _ => [0] end" % (Gc, tc))
+        expect.append(([1] + list(unhx(r[3:]))) if r.startswith("ok ") else [0])
+    pre = "From Coq Require Import ZArith List. Import ListNotations. Require Import Base.Py Model.Id3Util Model.Id3Conv. Open Scope Z_scope."
+    res, log = vm_shard("c13", pre, cases)
+    if res is None or len(res) != len(cases):
+        _dis(ctx, "c13.vm_shard", "vm_compute shard failed to run: %s" % (log,), {})
+        return
+    for want, r in zip(expect, res):
+        ctx.vm_cases += 1
+        m = re.match(r"\[(.*)\]$", r.replace("%Z", "").strip())
+        got = [int(x) for x in m.group(1).split(";") if x.strip()] if m else None
+        if got != want:
+            _dis(ctx, "c13.vm_shard", "extracted binary and vm_compute differ: vm=%r binary=%r" % (str(got)[:200], str(want)[:200]), {})
+            return
+
+
+# ------------------------------------------------------------------------------------------------ entry points
+def correspondence(ctx, n):
     for _ in range(n):
         corr_tag(ctx, gen_desc(ctx.rng))
-    corr_small(ctx, 60)
+    corr_small(ctx, max(40, n // 4))
     for _ in range(n):
         corr_parse(ctx, gen_v1_block(ctx.rng))
+
+
+def run(ctx):
+    if ctx.thorough:
+        correspondence(ctx, 2500)
+        direct_oracle(ctx, 700, 150)
+    else:
+        correspondence(ctx, 350)
+        direct_oracle(ctx, 90, 25)
+    vm_crosscheck(ctx)
+
+
+def search(ctx, broken):
+    """a proof or the correspondence broke: look for a concrete input on which the PROPERTY fails (implementation only)"""
+    before = len(ctx.violations)
+    direct_oracle(ctx, 400, 100)
+    ctx.notes["search"] = "direct oracle over 400 further tags x versions x separators x ID3v1 options, 100 hand-built v2.2/v2.3 tags and the samples found %d failing inputs" % (len(ctx.violations) - before)
+
+
+def replay(ctx, payload):
+    d = payload.get("data", {})
+    if payload.get("kind") != "failing-input":
+        ctx.use_model = False
+        direct_oracle(ctx, 90, 25)
+        return bool(ctx.violations)
+    if "case_seed" in d:
+        return oracle_case(ctx, d["case_seed"], d["v2"], d["sep"], d["v1"], d["existing"]) > 0
+    if "hand_seed" in d:
+        return oracle_hand(ctx, d["hand_seed"], d["src"], d["dst"]) > 0
+    if "sample" in d:
+        return oracle_sample(ctx, d["sample"]) > 0
+    direct_oracle(ctx, 0, 0)
+    return bool(ctx.violations)
+
+
+def coverage_extra(ctx):
+    return {"exhaustive": False,
+            "model_partial": "date-time granularity (first value, no seconds, complete date needed for the time), idempotence under the stated TCON precondition"}
